@@ -37,7 +37,7 @@ FUNCS = ["litex.soc.cores.clock.xilinx_common.XilinxClocking.compute_config", "l
 SL = Fraction(1, 10**9)
 
 
-ECP5_PHASES = [100, 87, 200, 33]          # not multiples of 45 degrees: the rounding to eighths of a VCO period carries for some dividers
+ECP5_PHASES = [340, 87, 200, 33]          # not multiples of 45 degrees: the rounding to eighths of a VCO period carries for some dividers
 PHASES = [0, 90, 45, 180, 270, 135]      # requested phase of output i (concrete, distinct: a swapped or dropped phase is visible)
 
 
